@@ -35,6 +35,7 @@ KIND_RULES = {
     "K-LEN": "len() is never applied to a composite (time, nodes) / (nodes, layer) key",
     "K-MEM": "membership tests / set updates use elements of the container's element kind",
     "C-SIG": "every resolved call binds against the callee's signature",
+    "K-KEY-LOCAL": "local dicts are subscripted with keys of their inferred key kind",
 }
 PATH_RULES = {
     "P-FRESH": "a record-creating store is dominated by `key not in _edge_list`; all id-keyed tables are written on that path; metadata of an existing record is only overwritten when supplied",
